@@ -8,6 +8,8 @@ import Verif.C02.Model
 import Verif.C02.Lemmas
 import Verif.C02.PLemmas
 import Verif.C02.LexLemmas
+import Verif.C02.TextLemmas
+import Verif.C02.XText
 
 namespace Verif.C02
 open Verif.Codec Verif.Py
@@ -206,6 +208,85 @@ theorem simpledmrs_text_stable_indent (o : Opts) (k : Nat) (d : DMRS) :
 
 example : lexOK dTypeU = true := by decide
 
+
+/-! ## SimpleDMRS: the format strings themselves
+
+`encListText o indent ds` is the literal transcription of `_encode` / `_encode_dmrs` / `_encode_attrs` /
+`_encode_node` / `_encode_sortinfo` / `_encode_link` (the two format strings pinned in `c02SdFormats`); it is
+compared with the text of the real `encode`/`dumps` on EVERY generated case, inside and outside the lexical
+domain, for every indent setting.  The theorems above are about the layouts `render` / `tokLines` of the token
+lists; the next theorem says these are the same texts, for every graph, without any hypothesis. -/
+
+/-- the text the format strings write is the single-line layout (`indent=None/False`) resp. the line layout
+(`indent=k`; `True` is 2) of the token lists `encDmrsToks` -/
+theorem simpledmrs_format_is_layout (o : Opts) (ds : List DMRS) :
+    encListText o none ds = encodeTextList o ds ∧
+    (∀ k, encListText o (some k) ds = encodeTextIndentList o k ds) ∧
+    (∀ d, encDmrsText o none d = encodeText o d) ∧
+    (∀ k d, encDmrsText o (some k) d = encodeTextIndent o k d) :=
+  ⟨encListText_none o ds, fun k => encListText_some o k ds, fun d => encDmrsText_none o d,
+   fun k d => encDmrsText_some o k d⟩
+
+/-- `encode(d, …, indent)` is `_encode([d], …)` -/
+theorem encListText_single (o : Opts) (indent : Option Nat) (d : DMRS) :
+    encListText o indent [d] = encDmrsText o indent d := by
+  simp [encListText, joinStr]
+
+/-- "For every DMRS, decoding its SimpleDMRS … encoding yields the same …; crossed with properties/lnk/indent
+options": `decode(encode(d, properties, lnk, indent))`, on the text the format strings write, for every option
+setting and every indent (`none`, or `some k` blanks). -/
+theorem simpledmrs_encode_decode (o : Opts) (indent : Option Nat) (d : DMRS) (hwf : d.WF) (hx : ExpressibleSD d)
+    (hl : lexOK d = true) : decodeText (encListText o indent [d]) = .ok (viewS o d) := by
+  rw [encListText_single]
+  cases indent with
+  | none => rw [encDmrsText_none]; exact decodeText_encodeText o d hwf hx hl
+  | some k => rw [encDmrsText_some]; exact decodeText_encodeTextIndent o k d hwf hx hl
+
+/-- … "single vs. list API": `loads(dumps(ds, properties, lnk, indent))` -/
+theorem simpledmrs_dumps_loads (o : Opts) (indent : Option Nat) (ds : List DMRS)
+    (h : ∀ d ∈ ds, d.WF ∧ ExpressibleSD d) (hl : ∀ d ∈ ds, lexOK d = true) :
+    decodeTextList (encListText o indent ds) = .ok (ds.map (viewS o)) := by
+  cases indent with
+  | none => rw [encListText_none]; exact decodeTextList_encodeTextList o ds h hl
+  | some k => rw [encListText_some]; exact decodeTextList_encodeTextIndentList o k ds h hl
+
+/-- "re-encoding reproduces the text": `dumps(loads(dumps(ds)))` is `dumps(ds)`, character by character, for
+every indent — no hypothesis on the graphs (F11 included: a type `u` is not written either time) -/
+theorem simpledmrs_dumps_stable (o : Opts) (indent : Option Nat) (ds : List DMRS) :
+    encListText o indent (ds.map (viewS o)) = encListText o indent ds := by
+  cases indent with
+  | none =>
+    rw [encListText_none, encListText_none]
+    unfold encodeTextList
+    rw [List.flatMap_map]
+    congr 2
+    funext d
+    exact simpledmrs_stable o d
+  | some k =>
+    rw [encListText_some, encListText_some]
+    unfold encodeTextIndentList
+    rw [List.flatMap_map]
+    congr 3
+    funext d
+    exact tokLines_view o k d
+
+/-- the lexical hypothesis is needed: a predicate with a blank in it is written as it is and read as two
+symbols (the decoder then takes the second for the node type) -/
+def dBlank : DMRS :=
+  { top := none, index := none, nodes := [{ id := 10000, pred := S "a b" }], links := [] }
+
+theorem simpledmrs_lexOK_needed :
+    lexOK dBlank = false ∧ ExpressibleSD dBlank ∧ dBlank.WF ∧
+    decodeText (encListText ⟨true, true⟩ none [dBlank]) ≠ .ok (viewS ⟨true, true⟩ dBlank) := by
+  have hwf : dBlank.WF := by intro l hl; cases hl
+  have hx : ExpressibleSD dBlank := by
+    refine ⟨?_, by intro l hl; cases hl⟩
+    intro n hn
+    simp [dBlank] at hn
+    subst hn
+    exact ⟨by simp [KeysNodup], by simp, by simp, by decide⟩
+  exact ⟨by decide, hx, hwf, by decide⟩
+
 /-! ## DMRS-JSON and DMRX -/
 
 /-- "decoding its … DMRS-JSON encoding yields the same node identifiers, predicates, node types,
@@ -291,6 +372,106 @@ theorem dmrx_gpred_roundtrip (p : Str) (hn : normalizePred p = p) (hne : p ≠ [
 example : PredRT (S "_rain_v_1") :=
   ⟨{ tag := S "realpred", attrs := [(S "lemma", S "rain"), (S "pos", S "v"), (S "sense", S "1")], text := none },
    by decide, by decide, by decide⟩
+
+
+/-! ## DMRX: the text layout (`_indent`) -/
+
+/-- "crossed with properties/lnk/indent options": `dmrx._indent` only writes `tail`s and the `text` of elements
+that have children — for every indent width, `maxdepth` and starting level, the tree the decoder reads
+(attributes, children, text of the leaves `gpred`/`rargname`/`post`) is the tree `_encode_dmrs` built -/
+theorem dmrx_indent_layout_only (indent maxdepth level : Nat) (x : XDmrs) :
+    stripD (indentD indent maxdepth level (plainD x)) = x := by
+  have hL : ∀ (lv : Nat) (l : XLeaf), stripL (indentL indent maxdepth lv (plainL l)) = l := by
+    intro lv l
+    unfold indentL
+    split <;> rfl
+  have hM : ∀ (lv : Nat) (m : XMid), stripM (indentM indent maxdepth lv (plainM m)) = m := by
+    intro lv m
+    obtain ⟨tag, attrs, children⟩ := m
+    unfold indentM
+    split
+    · simp [stripM, plainM, List.map_map, Function.comp_def, stripL, plainL]
+    · simp only [stripM, plainM, List.map_map, Function.comp_def, hL, List.map_id']
+  obtain ⟨attrs, children⟩ := x
+  unfold indentD
+  split
+  · simp [stripD, plainD, List.map_map, Function.comp_def, stripM, plainM, stripL, plainL]
+  · simp only [stripD, plainD, List.map_map, Function.comp_def, hM, List.map_id']
+
+/-- … hence for `encode(d, indent=i)` with `i` off (`None`/`False`), on (`True`/`'LKB'`) or an integer -/
+theorem dmrx_layout_tree (o : Opts) (i : Indent) (d : DMRS) : encodeXTree o i d = toXml o d := by
+  unfold encodeXTree
+  cases h : toXml o d with
+  | error e => rfl
+  | ok x =>
+    cases i with
+    | off =>
+      obtain ⟨attrs, children⟩ := x
+      simp [layoutD, stripD, plainD, List.map_map, Function.comp_def, stripM, plainM, stripL, plainL]
+    | on => simp only [layoutD, dmrx_indent_layout_only]
+    | «by» k => simp only [layoutD, dmrx_indent_layout_only]
+
+/-- … and for `dumps(ds, indent=i)` under `<dmrs-list>` -/
+theorem dmrx_layout_tree_list (o : Opts) (i : Indent) (ds : List DMRS) :
+    encodeXTreeList o i ds = mapMExcept (toXml o) ds := by
+  unfold encodeXTreeList
+  cases h : mapMExcept (toXml o) ds with
+  | error e => rfl
+  | ok xs =>
+    have hid : ∀ xs : List XDmrs, (xs.map plainD).map stripD = xs := by
+      intro xs
+      rw [List.map_map]
+      conv => rhs; rw [← List.map_id xs]
+      apply List.map_congr_left
+      intro x _
+      obtain ⟨attrs, children⟩ := x
+      simp [stripD, plainD, List.map_map, Function.comp_def, stripM, plainM, stripL, plainL]
+    have hind : ∀ (k md : Nat) (xs : List XDmrs), List.map (stripD ∘ indentD k md 1 ∘ plainD) xs = xs := by
+      intro k md xs
+      conv => rhs; rw [← List.map_id xs]
+      apply List.map_congr_left
+      intro x _
+      exact dmrx_indent_layout_only k md 1 x
+    cases i with
+    | off => simp [layoutC, stripC, plainC, hid]
+    | on =>
+      simp only [layoutC, indentC, stripC, plainC]
+      simp [hind]
+    | «by» k =>
+      simp only [layoutC, indentC, stripC, plainC]
+      simp [hind]
+
+/-- "decoding its … DMRX … encoding yields the same …" for every indent option (`xml.etree` as the identity on the
+laid-out tree) -/
+theorem dmrx_roundtrip_indent (o : Opts) (i : Indent) (d : DMRS) (hwf : d.WF) (hx : ExpressibleX d) :
+    ∃ x, encodeXTree o i d = .ok x ∧ ofXml x = .ok (viewX o d) := by
+  rw [dmrx_layout_tree]
+  exact dmrx_roundtrip o d hwf hx
+
+/-- "re-encoding reproduces the text": the DMRX text of the decoded graph is the same text, for every indent
+option (the text being `rstrip(tostring(_indent(_encode_dmrs d)))`) -/
+theorem dmrx_text_stable (o : Opts) (i : Indent) (d : DMRS) : encodeXText o i (viewX o d) = encodeXText o i d := by
+  unfold encodeXText
+  rw [toXml_view]
+
+theorem dmrx_text_stable_list (o : Opts) (i : Indent) (ds : List DMRS) :
+    encodeXTextList o i (ds.map (viewX o)) = encodeXTextList o i ds := by
+  unfold encodeXTextList
+  have : mapMExcept (toXml o) (ds.map (viewX o)) = mapMExcept (toXml o) ds := by
+    induction ds with
+    | nil => rfl
+    | cons d ds ih => simp only [List.map_cons, mapMExcept, toXml_view, ih]
+  rw [this]
+
+/-- the writer never leaves a `"`, `<`, `>` or line feed of a value inside an attribute: what it writes between
+the quotes cannot end the attribute early -/
+theorem escAttr_clean (s : Str) (x : Char) (hx : x = '"' ∨ x = '<' ∨ x = '>' ∨ x = '\n') : x ∉ escAttr s := by
+  induction s with
+  | nil => simp [escAttr]
+  | cons c s ih =>
+    unfold escAttr
+    repeat' split
+    all_goals (rcases hx with h | h | h | h <;> subst h <;> simp_all [S, eq_comm])
 
 /-! ## DMRS-PENMAN -/
 
@@ -384,6 +565,74 @@ theorem penman_connected_keeps_all (d : DMRS) (hc : ∀ n ∈ d.nodes, n.id ∈ 
 theorem penman_top_kept (d : DMRS) (t : Int) (ht : d.top = some t) : t ∈ mainComponent d :=
   top_mem_mainComponent d t ht
 
+/-! ### variable names (fix 32cdf83, finding F57) -/
+
+theorem filter_len_lt (l : List Str) (a : Nat) (x : Str) (hx : x ∈ l) (hxa : x.length = a) :
+    (l.filter (fun p => decide (a + 1 ≤ p.length))).length < (l.filter (fun p => decide (a ≤ p.length))).length := by
+  induction l with
+  | nil => cases hx
+  | cons y ys ih =>
+    have hmono : (ys.filter (fun p => decide (a + 1 ≤ p.length))).length ≤
+        (ys.filter (fun p => decide (a ≤ p.length))).length := by
+      clear ih hx
+      induction ys with
+      | nil => simp
+      | cons z zs ihz =>
+        simp only [List.filter_cons]
+        by_cases h1 : a + 1 ≤ z.length
+        · have h2 : a ≤ z.length := by omega
+          simp [h1, h2, ihz]
+        · by_cases h2 : a ≤ z.length <;> simp [h1, h2] <;> omega
+    simp only [List.filter_cons]
+    rcases List.mem_cons.mp hx with h | h
+    · subst h
+      have h1 : ¬ (a + 1 ≤ x.length) := by omega
+      have h2 : a ≤ x.length := by omega
+      simp [h1, h2]; omega
+    · have := ih h
+      by_cases h1 : a + 1 ≤ y.length
+      · have h2 : a ≤ y.length := by omega
+        simp [h1, h2]; omega
+      · by_cases h2 : a ≤ y.length <;> simp [h1, h2] <;> omega
+
+/-- the loop `while var in predicates: var += '_'` ends outside the set: with fuel above the number of predicates
+at least as long as the candidate, the result is not a predicate -/
+theorem freshen_not_mem (preds : List Str) : ∀ (fuel : Nat) (v : Str),
+    (preds.filter (fun p => decide (v.length ≤ p.length))).length < fuel → freshen preds fuel v ∉ preds
+  | 0, _, h => by omega
+  | f + 1, v, h => by
+    unfold freshen
+    by_cases hv : v ∈ preds
+    · simp only [hv, ↓reduceIte]
+      apply freshen_not_mem preds f (v ++ ['_'])
+      have := filter_len_lt preds v.length v hv rfl
+      simp only [List.length_append, List.length_cons, List.length_nil, Nat.zero_add]
+      omega
+    · simp [hv]
+
+/-- "the instance triple is never read as an edge" (F57, repaired): no variable that `to_triples` hands out is
+spelled like a predicate of the graph, whatever the predicates, types and positions are -/
+theorem penman_variable_never_a_predicate (d : DMRS) (i : Nat) (n m : Node) (hm : m ∈ d.nodes) :
+    varName d i n ≠ m.pred := by
+  intro h
+  have hnot : varName d i n ∉ d.nodes.map (·.pred) := by
+    unfold varName
+    apply freshen_not_mem
+    have : ∀ (l : List Str) (q : Str → Bool), (l.filter q).length ≤ l.length := fun l q => List.length_filter_le q l
+    have := this (d.nodes.map (·.pred))
+    simp only [List.length_map] at this
+    exact Nat.lt_succ_of_le (this _)
+  exact hnot (h ▸ List.mem_map_of_mem hm)
+
+/-- the witness of F57 before the repair: node 2 has the predicate `e1`; node 1 now gets the variable `e1_` -/
+def dVarPred : DMRS :=
+  { top := some 10000, index := none,
+    nodes := [{ id := 10000, pred := S "_a_v_1", type := some (S "e") }, { id := 10001, pred := S "e1", type := some (S "x") }],
+    links := [⟨10000, 10001, some (S "ARG1"), some (S "NEQ")⟩] }
+
+set_option maxRecDepth 4000 in
+example : idMap dVarPred = [(10000, S "e1_"), (10001, S "x2")] := by decide
+
 /-! ## the constructor (`_normalize_top_and_links`) -/
 
 /-- "legacy top link from node 0 normalised to top attribute": every link from node 0 is removed, in
@@ -448,6 +697,14 @@ example : ExpressibleX dW := by
   · intro l hl
     simp [dW] at hl
     rcases hl with h | h <;> subst h <;> exact ⟨by decide, by decide⟩
+
+/-- the texts of the F11 witness: SimpleDMRS with `indent=2`, DMRX compact -/
+example : encListText ⟨true, false⟩ (some 2) [dTypeU] = S "dmrs {\n  [top=10000]\n  10000 [_x_n_1];\n}" := by
+  decide
+set_option maxRecDepth 8000 in
+example : encodeXText ⟨true, true⟩ .on dTypeU =
+    .ok (S "<dmrs cfrom=\"-1\" cto=\"-1\" top=\"10000\">\n<node nodeid=\"10000\" cfrom=\"-1\" cto=\"-1\"><realpred lemma=\"x\" pos=\"n\" sense=\"1\" /><sortinfo cvarsort=\"u\" /></node></dmrs>") := by
+  decide
 
 end Verif.C02
 
@@ -611,5 +868,21 @@ theorem c02_pins :
     ∧ c02Defaults =
       ["simpledmrs.encode(True, True, False)", "simpledmrs.dumps(True, True, False)", "simpledmrs.dump(True, True, False, 'utf-8')", "dmrx.encode(True, True, False)", "dmrx.dumps(True, True, False)", "dmrx.dump(True, True, False, 'utf-8')", "dmrsjson.encode(True, True, False)", "dmrsjson.dumps(True, True, False)", "dmrsjson.dump(True, True, False, 'utf-8')", "dmrspenman.encode(True, True, False)", "dmrspenman.dumps(False, True, False)", "dmrspenman.dump(False, True, False, 'utf-8')", "to_dict(True, True)", "to_triples(True, True)", "LookaheadIterator(1024)", "LookaheadLexer(1024)", "peek(0, None, False)", "Node(None, None, None, None, None, None)", "DMRS(None, None, None, None, None, None, None)"] := by
   refine ⟨?_, ?_, ?_, ?_, ?_, ?_, ?_, ?_, ?_, ?_, ?_, ?_, ?_, ?_, ?_, ?_, ?_, ?_, ?_, ?_, ?_, ?_, ?_, ?_, ?_, ?_, ?_, ?_, ?_, ?_, ?_, ?_, ?_, ?_, ?_, ?_, ?_, ?_, ?_, ?_, ?_, ?_, ?_, ?_, ?_, ?_, ?_, ?_, ?_, ?_, ?_, ?_, ?_, ?_, ?_, ?_, ?_, ?_, ?_, ?_⟩ <;> rfl
+
+/-- Pins of the public wrappers (round 6): the indent plumbing the models `layoutD`/`layoutC` (`'LKB'` spellings,
+`_indent(elem, 0, 2, 0)` / `(elem, indent, 3, 0)`), `model_indent` (`True` is 2 for SimpleDMRS and DMRS-JSON, -1 for
+penman) mirror, and the keyword names with which `dump` hands its options on to `dumps` (a dropped keyword
+changes the list). -/
+theorem c02_pins_api :
+    c02XEncodeConsts = ["LKB", "Lkb", "lkb", "0", "2", "indent", "maxdepth", "level", "3", "maxdepth", "level", "unicode", "encoding"]
+    ∧ c02XDumpConsts = ["properties", "lnk", "indent", "write", "file", "w", "encoding"]
+    ∧ c02JEncodeConsts = ["2", "properties", "lnk", "indent"]
+    ∧ c02JDumpsConsts = ["2", "properties", "lnk", "indent"]
+    ∧ c02JDumpConsts = ["2", "properties", "lnk", "write", "indent", "w", "encoding"]
+    ∧ c02PEncodeConsts = ["-1", "properties", "lnk", "indent"]
+    ∧ c02PDumpsConsts = ["-1", "properties", "lnk", "indent"]
+    ∧ c02PDumpConsts = ["properties", "lnk", "indent", "write", "file", "w", "encoding"]
+    ∧ c02SdDumpConsts = ["properties", "lnk", "indent", "write", "file", "w", "encoding"] := by
+  refine ⟨?_, ?_, ?_, ?_, ?_, ?_, ?_, ?_, ?_⟩ <;> rfl
 
 end Verif.C02
